@@ -8,7 +8,7 @@ ID = "C15"
 RULE = ("all cells of a 7-point time lattice around the trigger: alarm ACKNOWLEDGED, component acknowledgement (DTSTAMP, or X-MOZ-LASTACK for Thunderbird "
         "components) and snooze each absent or at one of 7 instants (8^3 = 512 orderings incl. equalities) x trigger kind {UTC, zoned, floating, date, zoned inside the repeated hour at the end of daylight time} x "
         "local zone {unset, str, tzinfo} x Thunderbird/not x provider {zoneinfo, pytz}, exhaustively; every cell also checks a second, never acknowledged "
-        "alarm, sub-list-ness of active, and monotonicity (each acknowledgement moved one lattice step later); plus seeded random instants; "
+        "alarm, sub-list-ness of active, (in a third of the cells) the cell's values set by acknowledge_until/snooze_until after earlier calls with other values, None included, and monotonicity (each acknowledgement moved one lattice step later); plus seeded random instants; "
         "non-trivial = at least one acknowledgement present; distinct by construction")
 ASSUMPTIONS = ["R6 decision table: active iff no ack, or snooze > ack, or effective trigger > ack (effective trigger = snooze if snooze > trigger)",
                "for a floating/date trigger without a local zone the only admissible outcomes are LocalTimezoneMissing or a verdict that does not need the comparison",
@@ -125,6 +125,14 @@ def build(case):
     if local is not None:
         alarms.set_local_timezone(local_arg)
     if not tb and s is not None:
+        alarms.snooze_until(P(s))
+    if ((a1 or 0) + 3 * (a2 or 0) + 5 * (s or 0) + salt) % 3 == 1:
+        # "only the last call counts": other values first (they would acknowledge and snooze everything), then the ones of this cell -
+        # None included, which clears
+        junk = anchor + timedelta(days=9)
+        alarms.acknowledge_until(junk)
+        alarms.snooze_until(junk)
+        alarms.acknowledge_until(P(a2))
         alarms.snooze_until(P(s))
     t2 = R6.add(start, timedelta(minutes=30), norm)
     t2_dt = datetime(t2.year, t2.month, t2.day) if R6.is_date(t2) else t2
